@@ -534,11 +534,12 @@ func (y *c01Sys) answerPending(letter string, all bool) int {
 // ---- runner ------------------------------------------------------------------------------------
 
 // Unit: "cfg=<c>;start=<s>" ; letters:
-//   D:<hostile name>[@src]   deliver one hostile datagram
-//   OP:<op>                  start one of the node's own operations
-//   R:... / X:...            answer every pending outbound query with this hostile reply
-//   B:<corpus>:<from>:<to>   deliver the byte-neighbourhood slice of corpus message
-//   T:<seconds>              let virtual time pass
+//
+//	D:<hostile name>[@src]   deliver one hostile datagram
+//	OP:<op>                  start one of the node's own operations
+//	R:... / X:...            answer every pending outbound query with this hostile reply
+//	B:<corpus>:<from>:<to>   deliver the byte-neighbourhood slice of corpus message
+//	T:<seconds>              let virtual time pass
 func runC01(t *testing.T, c explore.Case) (res explore.Result) {
 	var cfgName, startName string
 	for _, kv := range strings.Split(c.Unit, ";") {
